@@ -58,9 +58,10 @@ def splitProgs (l : List String) : Option (List (List String)) :=
   let (p, gs) := splitAux l
   if p.isEmpty then some gs else none
 
-/-- `Init`: capacity rounding on uint32 (`none` = the documented panic for cap ≤ 0). -/
+/-- `Init`: capacity rounding on uint32 (`none` = the panic for cap ≤ 0 and, since the F6
+repair, for cap > 2^31). -/
 def initCap (capreq : Int) : Option Nat :=
-  if capreq ≤ 0 then none
+  if capreq ≤ 0 ∨ capreq > 2 ^ 31 then none
   else if capreq = 1 then some 2
   else
     let c := capreq.toNat % 2 ^ 32
